@@ -2357,7 +2357,18 @@ void tNMEA2000::RespondISORequest(const tN2kMsg &N2kMsg, bool Addressed, unsigne
         SendProductInformation(iDev);
         break;
       case 126998L: /* Configuration information */
-        SendConfigurationInformation(iDev);
+        if ( ConfigurationInformation.ManufacturerInformation!=0 ||
+             ConfigurationInformation.InstallationDescription1!=0 ||
+             ConfigurationInformation.InstallationDescription2!=0 ) {
+          SendConfigurationInformation(iDev);
+        } else if ( Addressed ) {
+          // No information to report. SendConfigurationInformation would send its "not available" acknowledgement
+          // to the broadcast address; a request is refused to the requester only, and a broadcast request not at all.
+          tN2kMsg   N2kMsgR;
+          SetN2kPGNISOAcknowledgement(N2kMsgR,1,0xff,RequestedPGN);
+          N2kMsgR.Destination  = N2kMsg.Source;
+          SendMsg(N2kMsgR,iDev);
+        }
         break;
       default:
         /* If user has established a handler */
